@@ -85,8 +85,14 @@ class StepBudgetExceeded(BaseException):
     """The scenario did not become quiescent within the step budget (a busy loop or livelock)."""
 
 
+class Deadlock(StepBudgetExceeded):
+    """No runnable handle, no timer, no I/O for a while: the main coroutine can never complete."""
+
+
 class CtlLoop(asyncio.SelectorEventLoop):
     max_steps = 200_000
+    idle_limit_s = 3.0            # real seconds of complete idleness tolerated (worker threads may still wake the loop up)
+    _idle_since: Optional[float] = None
 
     def __init__(self, chooser: Callable[[int], int], on_step: Optional[Callable[[], None]] = None):
         super().__init__()
@@ -110,6 +116,8 @@ class CtlLoop(asyncio.SelectorEventLoop):
         elif self._scheduled:
             # virtual time: jump to the next timer (but poll I/O first)
             timeout = 0
+        else:
+            timeout = 0.05          # nothing to do at all: never block for good (see the idle limit below)
         event_list = self._selector.select(timeout)
         self._process_events(event_list)
         if not [h for h in self._ready if not h._cancelled] and self._scheduled and not event_list:
@@ -137,9 +145,20 @@ class CtlLoop(asyncio.SelectorEventLoop):
         if not live:
             if not self._scheduled:
                 # nothing to do at all: block on I/O (threads may call call_soon_threadsafe)
+                import time as _time
                 event_list = self._selector.select(0.05)
                 self._process_events(event_list)
+                if event_list or self._ready:
+                    self._idle_since = None
+                else:
+                    now = _time.monotonic()
+                    if self._idle_since is None:
+                        self._idle_since = now
+                    limit = self.idle_limit_s * (10 if getattr(self, 'real_threads', False) else 1)
+                    if now - self._idle_since > limit and not self._stopping:
+                        raise Deadlock(f'deadlock: no runnable handle, no timer and no I/O for {limit:.0f} s after {self.steps} scheduler steps')
             return
+        self._idle_since = None
         i = self._chooser(len(live)) if len(live) > 1 else 0
         h = live[i]
         del self._ready[i]
